@@ -174,8 +174,7 @@ func (w *ntWorld) events(ms []*ref.Msg) []string {
 }
 
 func (w *ntWorld) sessionGone(local string) bool {
-	s, _ := w.tr.Ctx.Get(local).(hap.Session)
-	return s == nil
+	return sessionOf(w.tr.Ctx, local) == nil
 }
 
 func (w *ntWorld) put(cs *ntConn, item J) (int, int) {
@@ -401,7 +400,7 @@ func (w *ntWorld) runWord(b Beh, tr *Tracer) error {
 				// its session removed, then the writer is released
 				ch := w.chars[st.Ch]
 				var target *hap.Connection
-				if sess, ok := w.tr.Ctx.Get(cs.local).(hap.Session); ok && sess != nil {
+				if sess := sessionOf(w.tr.Ctx, cs.local); sess != nil {
 					target, _ = sess.Connection().(*hap.Connection)
 				}
 				g := &writeGate{entered: make(chan struct{}), release: make(chan struct{})}
